@@ -79,6 +79,9 @@ structure Step where
   obs : List (String × Obs)   -- by prefix
   /-- measured quality of the implementation's SVD routine on this step's matrix (harness `svdq`) -/
   svdq : Option Float := none
+  /-- the implementation's SVD routine produced singular values that are not finite on this step's
+  (finite) matrix (harness `svdq nonfinite`): the oracle `Ext.svd` of the model does the same -/
+  svdBreak : Bool := false
 deriving Inhabited
 
 def Obs.add (o : Obs) (l : Array String) : Obs :=
@@ -99,6 +102,14 @@ def addObs (obs : List (String × Obs)) (l : Array String) : List (String × Obs
   | some _ => obs.map fun po => if po.1 == pre then (po.1, po.2.add l) else po
   | none => obs ++ [(pre, (default : Obs).add l)]
 
+/-- the SVD oracle of one step: the driver's own routine, or – where the harness reports that the
+implementation's routine broke down on the step's matrix – one with singular values that are not
+finite -/
+def extFor (brk : Bool) : Ext Float :=
+  if brk then
+    { svd := fun n m A => let d := floatExt.svd n m A; { d with sigma := d.sigma.map fun _ => 0.0 / 0.0 } }
+  else floatExt
+
 def parseSteps (c : Case) : Array Step := Id.run do
   let mut steps : Array Step := #[]
   for l in c.body do
@@ -115,6 +126,8 @@ def parseSteps (c : Case) : Array Step := Id.run do
       else if t == "d" then
         let f := if l.getD 2 "" == "ok" then some (fmatAt l 3) else none
         steps := steps.set! i { st with tables := { st.tables with d := st.tables.d.push f } }
+      else if t == "svdq" && l.getD 1 "" == "nonfinite" then
+        steps := steps.set! i { st with svdBreak := true }
       else if t == "svdq" then
         let q := (parseF (l.getD 1 "")).abs + (parseF (l.getD 2 "")).abs + (parseF (l.getD 3 "")).abs
         steps := steps.set! i { st with svdq := some q }
@@ -260,7 +273,7 @@ def stateCore (focus : String) (c : Case) : Acc × String := Id.run do
   -- `build`: weight the data (one multiplication per entry, rounded to the implementation's width)
   let P0 : Problem U s :=
     let P : Problem U s := { Yw := (wmul w Y).map (rndW width), st := st0, eps := eps, w := w, cached := none }
-    P.setParams floatExt floatOps (U.params st0)
+    P.setParams (extFor steps[0]!.svdBreak) floatOps (U.params st0)
   let mut P := P0
   let mut acc : Acc := {}
   let mut kmax := 0.0
@@ -287,7 +300,7 @@ def stateCore (focus : String) (c : Case) : Acc × String := Id.run do
       | _, _ => pure ()
       continue
     if si > 0 then
-      P := P.setParams floatExt floatOps (vecOfArray p step.alpha)
+      P := P.setParams (extFor step.svdBreak) floatOps (vecOfArray p step.alpha)
     let o := step.get "impl"
     if let some pm := o.panic then
       acc := { acc with mon := acc.mon.push s!"step{si}:panic:{pm}" }
